@@ -41,7 +41,8 @@ MANIFEST = {
                   'statement substitution of closure variables) and formal-inverse / orientation '
                   'check with sympy as a normaliser of closed expressions; return-provenance of the '
                   'decoder; alias analysis of the label converters; index-walk agreement of map/unmap'
-                  '; one-hot widths compared symbolically (sympy); decoder clip checked on the sub-CFG where clipping is on; exact index encoding'),
+                  '; one-hot widths compared symbolically (sympy); decoder clip checked on the sub-CFG where clipping is on; exact index encoding'
+                  '; path-based symbolic execution (sympy as normaliser) of scaler construction following same-class/module helpers and NamedTuple carriers; member-wise table of the default getter; value-truthiness lint in label extraction'),
     'level_text': (
         'Static: each scaler branch is a formal bijection onto [0,1] with the documented '
         'orientation, the one-hot pair uses one spec, the decoder can only return None, a clipped '
